@@ -31,6 +31,8 @@ import SoyVerif.Base.BLit
 import SoyVerif.Spec.JsString
 import SoyVerif.Spec.Json
 import SoyVerif.Spec.JsSemRef
+import SoyVerif.Spec.JsStmt
+import SoyVerif.Gen.JsTables
 
 namespace SoyVerif.Spec.JsParse
 open SoyVerif SoyVerif.Spec
@@ -731,6 +733,175 @@ def readE : PE → Option JsExpr
           | _, _, _ => none)
       | x => (match readE x with | some jx => some (.paren jx) | none => none))
   | _ => none
+
+/-! ## 4. reading statements as `JsStmt` (the concrete syntax of Spec/JsStmt, read backwards) -/
+
+open SoyVerif.Model (Directive Expr)
+open SoyVerif.Spec.JsStmt (JsStmt JsStmts JsConds JsCases DataBase JsFunc)
+
+/-- the dotted name `a.b.c` a chain of `.name` spells -/
+def qnameOf : PE → Option Bytes
+  | .ident g => some g
+  | .member x k => (match qnameOf x with | some q => some (q ++ 46 :: k) | none => none)
+  | _ => none
+
+/-- the print directive whose JavaScript function is `q` (Gen/JsTables: soyjs.PrintDirectives) -/
+def dirOfJs (q : Bytes) : Option Bytes :=
+  if q.isEmpty then none
+  else match Gen.jsDirectives.find? (fun d => d.jsName == q) with
+    | some d => some d.name
+    | none => none
+
+/-- a literal argument of a directive as the source expression (at position 0) -/
+def litOf : JsExpr → Option Expr
+  | .null => some (.null 0)
+  | .bool b => some (.bool 0 b)
+  | .num v => some (.int 0 v)
+  | .str v => some (.str 0 [] v)
+  | _ => none
+
+def readLits : PArgs → Option (List Expr)
+  | .nil => some []
+  | .cons a r =>
+    match readE a, readLits r with
+    | some j, some es => (match litOf j with | some e => some (e :: es) | none => none)
+    | _, _ => none
+
+/-- `dN(…d1(e, a…)…, a…)`: the expression and the calls of library functions around it, innermost first -/
+def readPrint : PE → Option (JsExpr × List Directive)
+  | .call f (.cons a as) =>
+    (match (match qnameOf f with | some q => dirOfJs q | none => none) with
+      | some name =>
+        (match readPrint a, readLits as with
+          | some (e, ds), some args => some (e, ds ++ [⟨0, name, args⟩])
+          | _, _ => none)
+      | none => (match readE (.call f (.cons a as)) with | some e => some (e, []) | none => none))
+  | x => (match readE x with | some e => some (e, []) | none => none)
+
+def readProps : PProps → Option (List (Bytes × JsExpr))
+  | .nil => some []
+  | .cons k v r =>
+    match readE v, readProps r with
+    | some j, some ps => some ((k, j) :: ps)
+    | _, _ => none
+
+/-- `{}`, `opt_data`, an expression -/
+def readBase : PE → Option DataBase
+  | .obj .nil => some .empty
+  | .ident g => if g == sOptData then some .all else some (.expr (.local g))
+  | x => (match readE x with | some e => some (.expr e) | none => none)
+
+def sAugment : Bytes := b!"soy.$$augmentMap"
+
+/-- the data argument of a call of a template: the base, or `soy.$$augmentMap(base, {k: v, …})` -/
+def readData : PE → Option (DataBase × List (Bytes × JsExpr))
+  | .call f (.cons base (.cons (.obj ps) .nil)) =>
+    if qnameOf f == some sAugment then
+      (match readBase base, readProps ps with
+        | some b, some (p :: r) => some (b, p :: r)
+        | _, _ => none)
+    else none
+  | x => (match readBase x with | some b => some (b, []) | none => none)
+
+/-- the right-hand side of `buf += …;` -/
+def readAppend (buf : Bytes) : PE → Option JsStmt
+  | .str t => some (.appendLit buf t)
+  | .call f (.cons d (.cons (.ident a1) (.cons (.ident a2) .nil))) =>
+    if a1 == b!"opt_sb" && a2 == b!"opt_ijData" then
+      (match qnameOf f, readData d with
+        | some callee, some (b, ps) => some (.call buf callee b ps)
+        | _, _ => none)
+    else
+      (match readPrint (.call f (.cons d (.cons (.ident a1) (.cons (.ident a2) .nil)))) with
+        | some (e, ds) => some (.append buf e ds)
+        | none => none)
+  | x => (match readPrint x with | some (e, ds) => some (.append buf e ds) | none => none)
+
+/-- `var x = init;` -/
+def readVar (x : Bytes) : PE → Option JsStmt
+  | .str [] => some (.varEmpty x)
+  | .member (.ident l) k =>
+    if k == sLength && l != sOptData then some (.varLength x l)
+    else (match readE (.member (.ident l) k) with | some e => some (.var x e) | none => none)
+  | .index (.ident l) (.ident i) => some (.varIndex x l i)
+  | e => (match readE e with | some j => some (.var x j) | none => none)
+
+mutual
+  def readS : PS → Option JsStmt
+    | .expr (.assign .add (.ident buf) rhs) => readAppend buf rhs
+    | .var [(x, init)] => readVar x init
+    | .ifElse (.bin .gt (.ident lim) (.num 0)) (.block body) (.block els) =>
+      (match readSs body, readSs els with
+        | some b, some e => some (.ifPos lim b e)
+        | _, _ => none)
+    | .ifS c (.block body) =>
+      (match readE c, readSs body with
+        | some jc, some b => some (.ifs (.cons jc b .nil))
+        | _, _ => none)
+    | .ifElse c (.block body) e =>
+      (match readE c, readSs body, readElse e with
+        | some jc, some b, some r => some (.ifs (.cons jc b r))
+        | _, _, _ => none)
+    | .forVar [(i, .num 0)] (.bin .lt (.ident i1) (.ident lim)) [.postInc (.ident i2)] (.block body) =>
+      if i1 == i && i2 == i then (match readSs body with | some b => some (.forUp i lim b) | none => none) else none
+    | .forVar [(i, init), (idx, .num 0)] (.bin .lt (.ident i1) (.ident lim))
+        [.assign .add (.ident i2) (.ident step), .postInc (.ident idx1)] (.block body) =>
+      if i1 == i && i2 == i && idx1 == idx then
+        (match readE init, readSs body with
+          | some ji, some b => some (.forStep i lim step idx ji b)
+          | _, _ => none)
+      else none
+    | .switchS e cs =>
+      (match readE e, readCases cs with
+        | some je, some jc => some (.switchS je jc)
+        | _, _ => none)
+    | _ => none
+  def readSs : PStmts → Option JsStmts
+    | .nil => some .nil
+    | .cons s r =>
+      match readS s, readSs r with
+      | some js, some jr => some (.cons js jr)
+      | _, _ => none
+  /-- what follows `else`: a block, or the next `if` of the chain -/
+  def readElse : PS → Option JsConds
+    | .block els => (match readSs els with | some e => some (.els e) | none => none)
+    | .ifS c (.block body) =>
+      (match readE c, readSs body with
+        | some jc, some b => some (.cons jc b .nil)
+        | _, _ => none)
+    | .ifElse c (.block body) e =>
+      (match readE c, readSs body, readElse e with
+        | some jc, some b, some r => some (.cons jc b r)
+        | _, _, _ => none)
+    | _ => none
+  /-- the statements of a clause, closed by `break;` -/
+  def readBrk : PStmts → Option JsStmts
+    | .nil => none
+    | .cons .brk .nil => some .nil
+    | .cons s r =>
+      match readS s, readBrk r with
+      | some js, some jr => some (.cons js jr)
+      | _, _ => none
+  /-- `case l1: case l2: … break;` is one clause with the labels l1, l2; `default:` is the last clause -/
+  def readCases : PClauses → Option JsCases
+    | .nil => some .nil
+    | .dflt body .nil => (match readBrk body with | some b => some (.dflt b) | none => none)
+    | .dflt _ _ => none
+    | .case l .nil rest =>
+      (match readE l, readCases rest with
+        | some jl, some (.cons ls b r) => some (.cons (jl :: ls) b r)
+        | _, _ => none)
+    | .case l body rest =>
+      (match readE l, readBrk body, readCases rest with
+        | some jl, some b, some r => some (.cons [jl] b r)
+        | _, _, _ => none)
+end
+
+/-- the statements a text denotes -/
+def jsParseStmts (s : Bytes) : Option JsStmts :=
+  match jsLex s with
+  | some ts => (match parseStmts ts with | some ss => readSs ss | none => none)
+  | none => none
 
 /-- the expression a text denotes -/
 def jsParseExpr (s : Bytes) : Option JsExpr :=
